@@ -244,7 +244,8 @@ func responseHandler(ctx context.Context, s types.Store, w http.ResponseWriter, 
 		http.Error(w, errorMsg, http.StatusBadRequest)
 		return
 	}
-	notFoundErrs := make(chan error, 1)
+	// postResponse can report up to two errors (one per concurrent write).
+	notFoundErrs := make(chan error, 2)
 	log.Printf("Posting a response [%q]", response.RequestID)
 	postResponse(ctx, s, response, notFoundErrs)
 	close(notFoundErrs)
